@@ -15,11 +15,12 @@ pub mod c12;
 pub mod c13;
 pub mod c14;
 pub mod c15;
+pub mod c16;
 
 use crate::engine::Property;
 
 pub fn all_ids() -> Vec<&'static str> {
-    vec!["C01", "C02", "C03", "C04", "C05", "C06", "C07", "C08", "C09", "C10", "C11", "C12", "C13", "C14", "C15"]
+    vec!["C01", "C02", "C03", "C04", "C05", "C06", "C07", "C08", "C09", "C10", "C11", "C12", "C13", "C14", "C15", "C16"]
 }
 
 pub fn get(id: &str) -> Option<Property> {
@@ -39,6 +40,7 @@ pub fn get(id: &str) -> Option<Property> {
         "C13" => Some(c13::property()),
         "C14" => Some(c14::property()),
         "C15" => Some(c15::property()),
+        "C16" => Some(c16::property()),
         _ => None,
     }
 }
